@@ -465,6 +465,56 @@ def _comma_text(bulk, card, rng=None):
     return "\n".join(lines) + "\n"
 
 
+def _card_with_comma_first_line(ctx, bulk, L):
+    """a small-field card (continued on a second line) whose FIRST line in comma form
+    `NAME,t1,...,t8` has exactly L characters (72 <= L <= 80: legal free field, beyond the 72
+    columns of fixed fields); tokens are full-width ints, names and reals."""
+    rng = ctx.rng
+    for _ in range(200):
+        nl = rng.randint(max(1, L - 72), 8)
+        need = L - 8 - nl  # total token length
+        lens = [8] * 8
+        extra = 64 - need
+        while extra > 0:
+            i = rng.randrange(8)
+            if lens[i] > 1:
+                lens[i] -= 1
+                extra -= 1
+        fields = []
+        for k in lens:
+            r = rng.random()
+            if r < 0.35:
+                n = rng.randint(10 ** (k - 1), 10 ** k - 1) if k > 1 else rng.randint(0, 9)
+                fields.append(["i", n])
+            elif r < 0.5 and k >= 2:
+                n = rng.randint(10 ** (k - 2), 10 ** (k - 1) - 1) if k > 2 else rng.randint(1, 9)
+                fields.append(["i", -n])
+            elif r < 0.7:
+                while True:
+                    t = rng.choice(_LET) + "".join(rng.choice(_ALNUM) for _ in range(k - 1))
+                    if not _is_number_to_reader(bulk, t):
+                        break
+                fields.append(["s", t])
+            else:
+                # a real whose stripped 8-wide field has k characters
+                found = None
+                for _ in range(60):
+                    x = rng.choice([1, -1]) * round(rng.uniform(1, 10), max(0, k - 3)) * 10.0 ** rng.randint(-2, 5)
+                    if len(bulk.format_float8(x).strip()) == k:
+                        found = x
+                        break
+                fields.append(["f", _bits(found)] if found is not None else ["i", 10 ** (k - 1) if k > 1 else 7])
+        name = _rand_name(rng, nl, False)[:nl].ljust(nl, "X")
+        if _is_number_to_reader(bulk, name):
+            continue
+        card = {"writer": "wtcard8", "name": name,
+                "fields": fields + [["i", rng.randint(1, 99)], ["b"], ["f", _bits(rng.choice([1.5, -2.25e-5, 3e10]))]]}
+        ct = _comma_text(bulk, card)
+        if ct is not None and len(ct.split("\n")[0]) == L:
+            return card
+    return None
+
+
 # ------------------------------------------------------------------------------------ correspondence
 
 
@@ -674,6 +724,19 @@ def correspondence(ctx):
             if rng.random() < 0.2:
                 ct = ct.replace(",", ", ")
             files.append((ct, c["name"], "comma"))
+            n0 = len(ct.split("\n")[0])
+            ctx.count("rdcards:comma:first-line-%s" % ("<=72" if n0 <= 72 else "73..80" if n0 <= 80 else ">80"))
+    # free-field cards whose first line is 72 .. 80 characters long (legal; a reader that cuts the
+    # line at column 72 like the fixed-field reader loses the last fields)
+    for L in range(72, 81):
+        for _ in range(ctx.pick(6, 40)):
+            c = _card_with_comma_first_line(ctx, bulk, L)
+            if c is None:
+                continue
+            ct = _comma_text(bulk, c, rng)
+            files.append((ct, c["name"], "comma"))
+            files.append((_write(bulk, c), c["name"], "single"))
+            ctx.count("rdcards:comma:first-line-%d" % L)
     req = []
     for text, nm, kind in files:
         for keep in (0, 1):
@@ -689,13 +752,17 @@ def correspondence(ctx):
                              got, rep[j])
             j += 1
     ctx.require_branches(["cards:wtcard8:3+-lines", "cards:wtcard16:3+-lines", "cards:wtcard16d:3+-lines",
-                          "cards:value-error", "rdcards:single", "rdcards:multi", "rdcards:comma"])
+                          "cards:value-error", "rdcards:single", "rdcards:multi", "rdcards:comma"] +
+                         ["rdcards:comma:first-line-%d" % L for L in range(72, 81)] +
+                         ["rdcards:comma:first-line-73..80", "rdcards:comma:first-line->80"])
 
 
 # ------------------------------------------------------------------------------------ oracle
 
 _FMT = {"f8": ("format_float8", 8, False), "f16": ("format_float16", 16, False),
-        "d16": ("format_double16", 16, True)}
+        "d16": ("format_double16", 16, True),
+        # the scientific helpers themselves (anchored mechanism; only the scientific form is available)
+        "s8": ("_format_scientific8", 8, None), "s16": ("_format_scientific16", 16, None)}
 
 
 def _best_unit(x, W, dstyle):
@@ -708,14 +775,14 @@ def _best_unit(x, W, dstyle):
     q = W - sg - 3 - len(str(abs(e))) - (1 if dstyle else 0)
     if q >= 0:
         units.append(Fraction(10) ** (e - q))
-    if not dstyle:
+    if dstyle is False:
         p = W - sg - kint - 1
         if p >= 0:
             units.append(Fraction(10) ** (-p))
     return min(units) if units else None
 
 
-def _number_failures(bulk, x, which=("f8", "f16", "d16")):
+def _number_failures(bulk, x, which=("f8", "f16", "d16", "s8", "s16")):
     out = []
     for key in which:
         fname, W, dstyle = _FMT[key]
@@ -908,6 +975,11 @@ def search(ctx, hints):
         {"writer": "wtcard16d", "name": "D*", "fields": [["f", _bits(-99999999999999.94)], ["b"], ["f", _bits(9999999.5)]]},
         {"writer": "wtcard8", "name": "GRID", "fields": [["i", 1], ["b"], ["f", _bits(9999999.5)], ["f", _bits(-999999.5)]]},
     ]
+    for L in range(72, 81):
+        for _ in range(ctx.pick(4, 20)):
+            c = _card_with_comma_first_line(ctx, bulk, L)
+            if c is not None:
+                fixed_cards.append(c)
     for c in fixed_cards:
         _report(ctx, _card_failures(bulk, c))
         ctx.count("oracle-cards")
